@@ -256,6 +256,22 @@ package escape
 //@   loop node invariant fr2: preserved(all)
 //@   loop node invariant leq: forall m *Node :: visited(node, m) ==> has(h.status, m) && g.status[m] <= h.status[m]
 
+// Instantiating a callee summary (Call) is monotone in the statuses of the caller's
+// nodes because the two places where one step of its worklist consults a status are
+// upward closed: the load nodes behind a mapped node are brought over whenever the
+// representative is known to pre with ANY status above Local (or is unknown to pre
+// and not Local in g), and a callee node that Leaked always leaks its representative.
+// (loop 4 is the worklist loop, loop 12 the one bringing allocation nodes over -- it
+// ends right before the status test -- and loop 13 the one bringing load nodes over.)
+//@ func EscapeGraph.Call
+//@   property C15
+//@   option havoc:*
+//@   requires g != nil && pre != nil && callee != nil
+//@   loop 4 body load_gate_known: passed(12) && atexit(12, has(pre.status, rep) && pre.status[rep] != Local) ==> passed(13)
+//@   loop 4 body load_gate_unknown: passed(12) && atexit(12, !has(pre.status, rep) && g.status[rep] != Local) ==> passed(13)
+//@   loop 4 body alloc_loop_always: passed(12)
+//@   loop 4 body leak_propagated: has(callee.status, base) && callee.status[base] == Leaked ==> called(MergeNodeStatus, g, rep, Leaked, _)
+
 // ---------------------------------------------------------------------------
 // C14: the transfer function of the escape analysis gives every instruction kind
 // that can make memory reachable from elsewhere its effect on the graph: allocations
